@@ -51,11 +51,37 @@ def opLine (m : Mem) (fr : Frame) (dst : Cell) : Op → String
   | .inverse => "field.inv " ++ fvStr (m.get (fr.addr dst))
   | .sqrtVal src => "field.sqrt " ++ fvStr (m.get (fr.addr src))
 
+/-- magnitude in the sense of the field contracts: words 0..8 ≤ m·(2^26+2^20), word 9 ≤ m·2^22 -/
+def magLeW (m : Nat) (f : FV) : Bool :=
+  let w := (fvWords f).map (·.toNat)
+  (w.take 9).all (· ≤ 68157440 * m) && w.getD 9 0 ≤ 4194304 * m
+
+/-- least magnitude of a representation (1000 if above 64) -/
+def minMag (f : FV) : Nat := ((List.range 65).find? fun m => magLeW m f).getD 1000
+
+/-- is this operation invoked within its documented magnitude contract, on the ACTUAL operand values? -/
+def opContractOk (m : Mem) (fr : Frame) (dst : Cell) : Op → Bool
+  | .set _ | .setInt _ => true
+  | .add src => minMag (m.get (fr.addr dst)) + minMag (m.get (fr.addr src)) ≤ 63
+  | .add2 a b => minMag (m.get (fr.addr a)) + minMag (m.get (fr.addr b)) ≤ 63
+  | .addInt k => minMag (m.get (fr.addr dst)) + 1 ≤ 63 && k ≤ 68157440
+  | .negate k => minMag (m.get (fr.addr dst)) ≤ k && k ≤ 63
+  | .negateVal src k => minMag (m.get (fr.addr src)) ≤ k && k ≤ 63
+  | .mulInt k => k * minMag (m.get (fr.addr dst)) ≤ 63
+  | .mul src => minMag (m.get (fr.addr dst)) ≤ 8 && minMag (m.get (fr.addr src)) ≤ 8
+  | .mul2 a b => minMag (m.get (fr.addr a)) ≤ 8 && minMag (m.get (fr.addr b)) ≤ 8
+  | .square => minMag (m.get (fr.addr dst)) ≤ 8
+  | .squareVal src => minMag (m.get (fr.addr src)) ≤ 8
+  | .normalise => (fvWords (m.get (fr.addr dst))).all fun w => w.toNat ≤ 4292870144
+  | .inverse => minMag (m.get (fr.addr dst)) ≤ 8
+  | .sqrtVal src => minMag (m.get (fr.addr src)) ≤ 8
+
 structure WOut where
   mem : Mem
   fr : Frame
   returned : Bool
-  wrap : Option String      -- the first wrapping operation, as a field.* op line
+  wrap : Option String      -- the first operation that wraps ("wrap <field.* op line>") or is invoked outside its
+                            -- magnitude contract ("contract <field.* op line>")
   nops : Nat                -- operations executed
 
 mutual
@@ -64,7 +90,10 @@ def execStmtW (prog : Array Fn) (fuel : Nat) (m : Mem) (fr : Frame) (w : Option 
     let r := applyOp m fr dst o
     let w' := match w with
       | some s => some s
-      | none => if r.toN != applyOpExact m fr dst o then some (opLine m fr dst o) else none
+      | none =>
+        if r.toN != applyOpExact m fr dst o then some ("wrap " ++ opLine m fr dst o)
+        else if !opContractOk m fr dst o then some ("contract " ++ opLine m fr dst o)
+        else none
     ⟨m.set (fr.addr dst) r, fr, false, w', n + 1⟩
   | .setFlag i c =>
     let v := evalCond m fr c
